@@ -433,8 +433,8 @@ func runCase(c *Case) (impl, model, spec string) {
 		if strings.HasPrefix(c.Kind, "hashtype:") {
 			key, src = "spec-vs-hashtype-rule", "the rule what a hash type commits to (every byte is a valid ECDSA hash type without STRICTENC; bits 0..4: NONE / SINGLE / else ALL; bit 7: ANYONECANPAY)"
 		}
-		if strings.HasPrefix(c.Kind, "fad:") || strings.HasPrefix(c.Kind, "limit:") || strings.HasPrefix(c.Kind, "nullfail:") {
-			key, src = "spec-vs-corpus-rule", "the rule written down next to this corpus case (go/cmd/c01/sizes.go: FindAndDelete removes exactly the canonical push; no script-size limit in tapscript; NULLFAIL = a failed check with a non-empty signature)"
+		if strings.HasPrefix(c.Kind, "fad:") || strings.HasPrefix(c.Kind, "limit:") || strings.HasPrefix(c.Kind, "nullfail:") || strings.HasPrefix(c.Kind, "opsuccess:") {
+			key, src = "spec-vs-corpus-rule", "the rule written down next to this corpus case (go/cmd/c01/sizes.go: FindAndDelete removes exactly the canonical push; no script-size limit in tapscript; BIP342's OP_SUCCESSx list; NULLFAIL = a failed check with a non-empty signature)"
 		}
 		if (c.Expect == "OK") != specOK {
 			r.TieFail(key, fmt.Sprintf("the reference semantics gives %s where %s demands %s (%s)", spec, src, c.Expect, c.Note), c)
